@@ -2,10 +2,21 @@
 
 package main
 
-import "runtime"
+import (
+	"fmt"
+	"os"
+	"runtime"
+)
 
-// With the runtime's fake clock a garbage collection can spin forever when
-// many Ps are idle (nanotime is frozen); a single P is measured to be safe (4 hung intermittently).
-func init() { runtime.GOMAXPROCS(1) }
+// With the runtime's fake clock, stop-the-world phases (garbage collection,
+// GOMAXPROCS changes) can spin forever when several Ps exist, because the
+// runtime's own timed waits never expire.  The driver must therefore be
+// started with GOMAXPROCS=1 in the environment (vlib/common.py does).
+func init() {
+	if runtime.GOMAXPROCS(0) != 1 {
+		fmt.Fprintln(os.Stderr, "vipsim (faketime) must be started with GOMAXPROCS=1")
+		os.Exit(2)
+	}
+}
 
 const fakeClock = true
